@@ -8,6 +8,7 @@ package main
 // all clones are re-compared after reading has finished (ClonesFrozen).
 
 import (
+	"io"
 	"encoding/json"
 	"fmt"
 	"math/rand"
@@ -412,7 +413,70 @@ func frDumpRec(rec benchfmt.Record) string {
 	return fmt.Sprintf("%T %s:%d", rec, f, l)
 }
 
+// frFailingReader delivers data and then fails with a read error that is not EOF.
+type frFailingReader struct {
+	data string
+	off  int
+}
+
+func (f *frFailingReader) Read(p []byte) (int, error) {
+	if f.off >= len(f.data) {
+		return 0, fmt.Errorf("disk on fire")
+	}
+	n := copy(p, f.data[f.off:])
+	f.off += n
+	return n, nil
+}
+
+// frAfterErrorCheck: a reader whose previous input ended in an I/O error (a failing io.Reader, or
+// a line beyond the scanner's limit) and is then Reset onto d1 reads d1 like a reader whose
+// previous input held the same complete lines and ended cleanly, and reports no error at the end.
+func frAfterErrorCheck(d0, d1 string) Verdict {
+	lines := strings.SplitAfter(d0, "\n")
+	for _, k := range []int{0, len(lines) / 2, len(lines)} {
+		prefix := strings.Join(lines[:k], "")
+		if prefix != "" && !strings.HasSuffix(prefix, "\n") {
+			prefix += "\n"
+		}
+		for _, how := range []string{"read error", "line beyond the scanner's limit"} {
+			var first io.Reader = &frFailingReader{data: prefix}
+			if how != "read error" {
+				first = strings.NewReader(prefix + "note: " + strings.Repeat("x", 70000) + "\nBenchmarkNever 1 1 ns/op\n")
+			}
+			a := benchfmt.NewReader(first, "first")
+			for a.Scan() {
+			}
+			if a.Err() == nil {
+				return fail("harness", "frAfterErrorCheck: the first input (%s) ended without an error", how)
+			}
+			a.Reset(strings.NewReader(d1), "second")
+			var da []string
+			for a.Scan() {
+				da = append(da, frDumpRec(a.Result()))
+			}
+			errAfter := a.Err()
+			b := benchfmt.NewReader(strings.NewReader(prefix), "first")
+			for b.Scan() {
+			}
+			b.Reset(strings.NewReader(d1), "second")
+			var db []string
+			for b.Scan() {
+				db = append(db, frDumpRec(b.Result()))
+			}
+			if strings.Join(da, "\n") != strings.Join(db, "\n") || errAfter != nil {
+				return Verdict{OK: false, Signature: "reset-after-io-error",
+					Detail: fmt.Sprintf("reader whose first input (%d complete lines) ended in a %s, then Reset onto the second input: records\n%s\nErr() = %v; a reader whose first input ended cleanly gives\n%s\nErr() = nil", k, how, strings.Join(da, "\n"), errAfter, strings.Join(db, "\n")),
+					Concrete: "--- first\n" + prefix + "\n--- second\n" + d1}
+			}
+		}
+	}
+	return pass()
+}
+
 func frAbandonCheck(d0, d1 string) Verdict {
+	if v := frAfterErrorCheck(d0, d1); !v.OK {
+		return v
+	}
 	// number of records of the first input
 	r := benchfmt.NewReader(strings.NewReader(d0), "first")
 	n := 0
